@@ -30,6 +30,9 @@ def build(chk, ip, runner):
     units += c12_gex.send_init_units()
     # re-opening the connection for a probe: at most one connect, nothing escapes (only struct.error can leave SSH2_Kex.parse: C10)
     units += c12_gex.reconnect_units()
+    # what one key-exchange request is on the wire: every send_init (finite-field DH and the four curve methods) emits exactly one packet
+    from contracts import c09_parsers
+    units += c09_parsers.send_init_units() + c09_parsers.send_init_fixed_units()
     chk.units = units
     chk.stubs = c12_gex.stubs() + c12_gex.send_init_stubs() + [c for c in c11_hostkey.perform_stubs() if c.qual not in ('SSH2_KexDB.get_db', 'SSH2_Kex.parse', 'traceback:format_exc')] + c12_gex.reconnect_stubs()
     chk.assumptions = ['the units see the peer only through abstract socket / KexDH / _send_init contracts (any result, KexDHException possible); connect() is counted, not dialled',
@@ -37,7 +40,7 @@ def build(chk, ip, runner):
     chk.customs = [custom_native]
     chk.level = 'other'
     chk.explanation = ('proved for every server behaviour: at most 9 group-exchange probes per algorithm (GEXTest.run), one reconnect / at most one request / '
-                       'socket closed per probe (GEXTest._send_init), at most one connection and one request per probed host-key type (HostKeyTest.perform_test); '
+                       'socket closed per probe (GEXTest._send_init), at most one connection and one request per probed host-key type (HostKeyTest.perform_test); a request is exactly one packet (send_init of KexDH and the four curve methods); '
                        'connection counts, one request per connection and closing by a bounded check against the fake server\'s connection log')
     chk.not_decided = ['"short-lived" (wall-clock duration of rate-check connections): no notion of time']
 
